@@ -4,8 +4,10 @@ package main
 // choice comes from the one PRNG in G, seeded from VERIF_SEED.
 
 import (
+	"fmt"
 	"math/rand"
 	"sort"
+	"strconv"
 )
 
 type G struct {
@@ -43,9 +45,41 @@ func (g *G) scalar() interface{} {
 		return g.chance(0.5)
 	case 2, 3, 4, 5:
 		return g.num()
+	case 6:
+		// strings that print like values of another type
+		return g.pick(lookAlikes)
 	default:
 		return g.pick(vocabStrs)
 	}
+}
+
+var lookAlikes = []string{"1", "0", "0.5", "-1", "2", "true", "false", "<nil>", "null", "", "[]", "map[]"}
+
+// twin: the value of another JSON type that prints the same (or the value itself when there is none)
+func twin(x interface{}) interface{} {
+	switch v := x.(type) {
+	case nil:
+		return "<nil>"
+	case bool:
+		return fmt.Sprint(v)
+	case float64:
+		return fmt.Sprint(v)
+	case string:
+		switch v {
+		case "true":
+			return true
+		case "false":
+			return false
+		case "<nil>", "null":
+			return nil
+		}
+		if f, err := strconv.ParseFloat(v, 64); err == nil {
+			if _, ok := quarters(f); ok {
+				return f
+			}
+		}
+	}
+	return x
 }
 
 // value: a variable-free JSON value
@@ -388,6 +422,10 @@ func (g *G) corrupt(x interface{}) interface{} {
 		}
 		return a
 	default:
+		if g.chance(0.3) {
+			// the scalar of another type that prints alike ("404" for 404, "true" for true)
+			return twin(x)
+		}
 		return g.value(1)
 	}
 }
